@@ -5,6 +5,7 @@ import regcommon as rc
 import vlib
 
 UP_PROBE = [dict(op='Write', r='r1', u='u1', data=[1]), dict(op='UpSize', r='r1', u='u1'), dict(op='GetBlob', r='r1', c='b1'), dict(op='GetBlob', r='r1', c='b2')]
+WIRE_PROBE = [dict(op='RawStatus', r='r1', u='u1'), dict(op='RawPatch', r='r1', u='u1', data=[], off=-2), dict(op='GetBlob', r='r1', c='b1'), dict(op='GetBlob', r='r1', c='b2')]
 STRICT = {'K1_DeclaredTypeGoverns': False, 'F12_PushBlobUncoded': False}
 HTTP_Q = 'http(small:1(mem));http(small:2(mem));http(mem);http(http(small:1(mem)))'
 HTTP_T = HTTP_Q + ';http(small:3(mem));http(http(mem));debug(http(debug(small:2(mem))))'
@@ -17,6 +18,9 @@ def run(ctx):
                      what='client writer, contract-following caller: all partitions of <= 4 bytes, hints {default,1,2,3}, every close/resume pattern: NeverRefused, CommitIsConcatenation, ServerOffsetAgrees')
     vlib.model_check(ctx, 'OciClientWriterMC.tla', 'OciClientWriterMC_any.cfg',
                      what='client writer, any caller (resume at any offset): WrongOffsetKeepsUpload, FailureStoresNothing, CommitStoresBuffer')
+    vlib.model_check(ctx, 'OciRegistryMC.tla', 'OciRegistryMC_wireq.cfg' if quick else 'OciRegistryMC_wire.cfg', timeout=1500,
+                     what='registry-side sessions driven by interface calls and by the wire-level upload requests (PATCH / closing PUT at any offset or without '
+                          'Content-Range, status GET): FailedCallStoresNothing, OnlyPushedAppears, RefusedKeepsUploads, CommitStoresSession')
     if not quick:
         vlib.model_check(ctx, 'OciRegistryMC.tla', 'OciRegistryMC_up.cfg', timeout=1500, what='registry-side sessions: offsets, dead sessions, commit')
     vh = vlib.build_harness(ctx)
@@ -28,6 +32,11 @@ def run(ctx):
     sp = rc.write_scenarios(ctx, scen)
     t = os.path.join(td, 'tlc-http.ndjson')
     rc.run_reg(ctx, vh, t, stacks=HTTP_Q if quick else HTTP_T, scen=sp)
+    traces.append(t)
+    # one history per (session state, wire-level upload request) pair, sent as plain HTTP requests
+    scenw = rc.cover_scenarios(ctx, 'OciRegistryCover_wire.cfg', sample=1200 if quick else None, probe=WIRE_PROBE)
+    t = os.path.join(td, 'tlc-wire.ndjson')
+    rc.run_reg(ctx, vh, t, stacks='http(mem)' if quick else 'http(mem);http(small:1(mem));http:nosingle(debug(mem))', scen=rc.write_scenarios(ctx, scenw, 'scenw.jsonl'))
     traces.append(t)
     # registry-level scenarios (OciRegistryGen with sessions) on the direct stacks
     scen2 = rc.gen_scenarios(ctx, 20 if quick else 400)
@@ -49,6 +58,7 @@ def run(ctx):
     vlib.judge_traces(ctx, 'RegTrace', 'RegTrace.cfg', traces, strict=STRICT, label='uploads vs OciClientWriter/OciRegistry')
     ctx.assumptions += ['resume with offset -1 after exactly one received byte is excluded (the property excludes it)',
                         'a writer is not used again after Commit over HTTP; Cancel is not followed by further use over HTTP',
+                        'wire-level upload requests (any offset, with or without Content-Range, status GET, closing PUT with a body) are sent as plain HTTP requests to stacks with exactly one HTTP hop',
                         'byte-sized chunk boundaries over HTTP are reached with a backend wrapper whose writers report ChunkSize 1..3']
     return vlib.finish(ctx, rule='every Write/Close/Resume/Size/Commit result and the blob read back after commit is one trace event; over HTTP the client writer model '
                        '(buffering, flush as PATCH at the acknowledged offset, final PUT, status GET) composed with the registry session model must produce exactly the '
